@@ -9,6 +9,7 @@ Reason(ev) ==
     IF ~Denotes(RefRead(ev.d), ev.g) THEN "ORACLE-reference-decoder-disagrees-with-generator"
     ELSE IF ev.res # "ok" THEN "reader-" \o ev.res
     ELSE IF ~Denotes(AsRead(ev.post), ev.g) THEN "reader-returns-something-else"
+    ELSE IF ev.zopt # "same" THEN "reading-with-zero-valued-options-gives-another-result"    \* the options only carry observers
     ELSE "ok"
   ELSE
     IF ev.res # "ok" THEN "writer-" \o ev.res
